@@ -20,16 +20,16 @@ EXPLANATION = (
     'are rewritten on the AST in memory; each rewrite is justified in the same run by bit-precise Float64 lemmas decided by z3 '
     '(for ceil((m/B)*1000), which is NOT exact in floats, the cut returns an arbitrary member of the proven power-of-two bucket, '
     'an over-approximation driven by extra symbolic slack inputs; pool prices are arbitrary symbolic numbers, also an '
-    'over-approximation). Only "Confirmed over all paths" counts. Bounds: mcpu < 2^20, '
+    'over-approximation). Only "Confirmed over all paths" counts. Bounds: mcpu in 250*2^k (k<=12), '
     'memory < 2^44, storage < 2^47; pool sets are the listed variants, not all sets; strings -> integers is C25.'
 )
 CLS_KNOWN = 'nonpow2-worker-cores-crash-price-selection'
 CLS_RAISE = 'select-inst-coll-raises'
 CLS_WRONG = 'request-under-provisioned-or-wrongly-rejected'
 ARGS = {
-    'pool': ['c', 'm', 'st', 'wc', 's0', 's1', 's2'],
-    'select': ['c', 'm', 'st', 'pre_', 'label_i', 's0', 's1', 's2'],
-    'selectK': ['c', 'm', 'st', 'pre_', 'label_i', 's0', 's1', 's2'],
+    'pool': ['ck', 'm', 'st', 'wc', 's0', 's1', 's2'],
+    'select': ['ck', 'm', 'st', 'pre_', 'label_i', 's0', 's1', 's2'],
+    'selectK': ['ck', 'm', 'st', 'pre_', 'label_i', 's0', 's1', 's2'],
     'private': ['same_cloud', 'mt_i', 'st'],
 }
 
@@ -40,6 +40,8 @@ def _H():
 
 def _replay(H, kind, meta, a):
     """Concrete re-execution on the REAL (uncut) code.  Returns None if the property holds, else (class, text)."""
+    if 'ck' in a:
+        a = dict(a, c=250 << a['ck'])
     try:
         if kind == 'pool':
             ok = H.pool_ok(meta['cloud'], meta['wt'], a['wc'], a['c'], a['m'], a['st'])
@@ -109,12 +111,12 @@ def run(R):
     pct = 120 if quick else 600
     H = _H()
     from harness import C12_template as T
-    R.bounds = {'requested mcpu': f'0..{T.CMAX - 1}', 'requested memory bytes': f'0..2^44-1', 'requested storage bytes': '0..2^47-1',
+    R.bounds = {'requested mcpu': f'250*2^k, k=0..{T.CKMAX}', 'requested memory bytes': f'0..2^44-1', 'requested storage bytes': '0..2^47-1',
                 'clouds': ['gcp', 'azure'], 'worker cores (pool obligations)': 'every value of the repository tables',
                 'pool-set variants (selection obligations)': variants, 'machine types': 'all of valid_machine_types(cloud)',
                 'mdiv slack': f'0..{T.SLK - 1}'}
     R.assume('integers are the input: request strings are parsed by parse_cpu_in_mcpu / parse_memory_in_bytes / parse_storage_in_bytes (C25)',
-             'requested cores are any integer 0 <= c < 2^20 (the front end only passes 250*2^k; the claim is stronger)',
+             'requested cores are the shares 250*2^k mcpu (k=0..12) that is_valid_cores_mcpu admits',
              'pool sets are the variants built by harness/C12_res.config from the repository tables (shipped layout; small+large '
              'pools per worker type with a labelled and a foreign-cloud pool; large-first with external disks; non-power-of-two '
              'cores); arbitrary other pool sets are not covered, single pools with every table core count are',
@@ -174,6 +176,7 @@ def run(R):
         if kind != 'selectK':
             targets.append(f'{gm}.reach_{fn}')
     res = chrun.run(targets, per_condition_timeout=pct, workers=8)
+    floatcut.require_verdicts(res)
     for kind, fn, meta in names:
         v, msg, dt = res[f'{gm}.{fn}']
         if kind == 'selectK':
@@ -191,20 +194,36 @@ def run(R):
             R.ob(name, 'discharged' if good else 'not_discharged', dt, {'twin': rmsg, 'lemmas_ok': lemmas_ok}, nontrivial=reach)
         elif v == 'refuted':
             stub = kind == 'select' and meta['wt_i'] == 0 and meta['variant'] != 3
-            a = chrun.parse_counterexample(msg, ARGS[kind] + ([f'pr{i}' for i in range(T.NPRICE)] if stub else []))
+            argn = ARGS[kind] + ([f'pr{i}' for i in range(T.NPRICE)] if stub else [])
+            a = chrun.parse_counterexample(msg, argn)
             if a is None:
                 raise HarnessError(f'cannot parse CrossHair counterexample: {msg}')
             r = _replay(H, kind, meta, a)
-            if r is None and stub:
-                # found under ARBITRARY symbolic pool prices, but the real rate table orders the pools differently: not
-                # reproduced on the real code => no VIOLATION; the obligation stays open
-                R.ob(name, 'not_discharged', dt, {'crosshair': msg[-300:], 'note': 'counterexample under symbolic prices does '
-                     'not reproduce with the real price computation'})
-                continue
+            if r is None and kind in ('pool', 'select'):
+                # The counterexample exists only under the over-approximations (bucket model of ceil((m/B)*1000), symbolic
+                # prices).  Search again with the tight (unproven, search-only) model of the float leaf; whatever it finds
+                # is replayed on the real code like any other counterexample.
+                tres = chrun.run([f'{gm}.T_{fn}'], per_condition_timeout=pct, workers=1)
+                floatcut.require_verdicts(tres)
+                tv, tmsg, tdt = tres[f'{gm}.T_{fn}']
+                if tv == 'refuted':
+                    a = chrun.parse_counterexample(tmsg, argn)
+                    if a is None:
+                        raise HarnessError(f'cannot parse CrossHair counterexample: {tmsg}')
+                    r = _replay(H, kind, meta, a)
+                    msg = tmsg
+                    dt += tdt
+                if r is None:
+                    R.ob(name, 'not_discharged', dt, {'crosshair': msg[-300:], 'tight_model': tv, 'note': 'counterexample exists only '
+                         'under the over-approximating cut / symbolic prices and does not reproduce on the real code; the '
+                         'search-mode run found none that does'})
+                    continue
             if r is None:
                 raise HarnessError(f'CrossHair counterexample does not reproduce on the real code: {fn}: {msg}')
             cls, why = r
             rep = {'kind': kind, 'meta': meta, 'args': {k: a[k] for k in ARGS[kind]}}
+            if 'ck' in rep['args']:
+                rep['args']['c_mcpu'] = 250 << rep['args']['ck']
             pools = H.describe(H.config(meta['cloud'], meta['variant'])) if 'variant' in meta else None
             st = R.finding(cls, f'{fn} {rep["args"]}: {why}' + (f' pools={pools}' if pools else ''), rep)
             R.ob(name, st, dt, {'cex': rep['args'], 'why': why}, nontrivial=True)
